@@ -3,6 +3,7 @@ CONSTANTS
   NMsgs = 3
   MaxOps = 2
   Buffers = {TRUE, FALSE}
+  Kinds = {"unbounded"}
   MaxLog = 4
 CONSTRAINT Bound
 VIEW View
